@@ -115,8 +115,8 @@ class CategoricalBox:
 
     @levels.setter
     def levels(self, value):
-        if value is not None and set(value) != set(self.data):  # pragma: no cover
-            raise ValueError("The levels beign assigned and the levels in the data differ")
+        # That the levels match the data is checked when the box is encoded for the first time.
+        # A box is also created with new data, which may legitimately lack some of the levels.
         self._levels = value
 
 
